@@ -39,9 +39,17 @@ def sAppx : Bytes := [46, 97, 112, 112, 120]
 def special (n : Bytes) : Bool :=
   n == sManifest || n == sBlockMap || n == sCTypes || n == sCatalog || n == sSignature || n == sBundle
 
-/-- `noHashFiles[name] || strings.HasSuffix(name, ".appx")` (`blockMap.AddFile`) -/
-def skipBM (n : Bytes) : Bool :=
+/-- `noHashFiles[name] || strings.HasSuffix(name, ".appx")` (`blockMap.AddFile`), the code before the repair of F41 -/
+def skipBMOrig (n : Bytes) : Bool :=
   n == sSignature || n == sCatalog || n == sCTypes || n == sBlockMap || endsWith n sAppx
+
+/-- `blockMap.AddFile`: is the member left out of the block map?  `fixed` = the source carries the repair of F41
+    (`noHashFiles[f.Name] || (b.isBundle && strings.HasSuffix(f.Name, ".appx"))`); this model refuses bundles, so with the repair
+    only the four unhashed parts are left out.  Without it every member named `*.appx` is (`skipBMOrig`). -/
+def skipBM (fixed : Bool) (n : Bytes) : Bool :=
+  n == sSignature || n == sCatalog || n == sCTypes || n == sBlockMap || (!fixed && endsWith n sAppx)
+
+theorem skipBM_orig (n : Bytes) : skipBM false n = skipBMOrig n := by simp [skipBM, skipBMOrig]
 
 /-- `digestFile`: members that are fed to `authenticode.DigestPE` -/
 def isPE (n : Bytes) : Bool := endsWith n sExe || endsWith n sDll
@@ -61,6 +69,8 @@ structure Codec where
   blockMap : Bytes → Option (List (Bytes × List Nat))
   /-- `ContentTypes.Parse` succeeds -/
   ctypesOk : Bytes → Bool
+  /-- the source carries the repair of F41 (not a computation left out: which of the two versions of `blockMap.AddFile` is modelled) -/
+  f41 : Bool := false
 
 /-- one `File` element of the block map; a block is the byte stream that is hashed plus the `Size` attribute -/
 structure BmFile where
@@ -141,10 +151,10 @@ structure PState where
   members : List Member := []
   deriving Repr
 
-def PState.step (s : PState) (f : File) (h : Hashed) : PState :=
+def PState.step (s : PState) (c : Codec) (f : File) (h : Hashed) : PState :=
   { outz := addFile s.outz h.m.file h.m.total, pos := s.pos + h.m.total, axpc := s.axpc ++ h.raw,
-    bm := if skipBM f.name then s.bm else s.bm ++ [bmOf f h],
-    unverified := s.unverified || (!skipBM f.name && decide (f.method ≠ 0)),
+    bm := if skipBM c.f41 f.name then s.bm else s.bm ++ [bmOf f h],
+    unverified := s.unverified || (!skipBM c.f41 f.name && decide (f.method ≠ 0)),
     hasPE := s.hasPE || isPE f.name, members := s.members ++ [h.m] }
 
 /-- the payload loop: `digestFile`, `layout.Next`, `outz.AddFile` per member -/
@@ -155,7 +165,7 @@ def payloadPass (c : Codec) : Rd → List File → PState → Res (PState × Rd)
     | .ok (h, r') =>
       if isPE f.name && !c.peOk h.plain then .err "pe"
       else if f.offset ≠ s.pos then .err "notcontig"
-      else payloadPass c r' fs (s.step f h)
+      else payloadPass c r' fs (s.step c f h)
     | .err x => .err x
     | .panic s => .panic s
     | .diverge => .diverge
